@@ -27,7 +27,8 @@ class C13(Prop):
                 "NV.C13.telnet_schedule_independent", "NV.C13.telnet_read_exact", "NV.C13.extract_exact",
                 "NV.C13.lines_eq_cmdsOf", "NV.C13.ascii_lines_delivered", "NV.C13.ascii_read_exact"]
     witness_theorems = ["NV.C13.sb_terminator_overflows_exact_array", "NV.C13.ayt_returns_to_data",
-                        "NV.C13.full_sb_payload_is_not_text", "NV.C13.ascii_spec_example"]
+                        "NV.C13.full_sb_payload_is_not_text", "NV.C13.ascii_spec_example",
+                        "NV.C13.burst_check", "NV.C13.telnet_lines_delivered_Full_false"]
     consts = [
         ("maxText", "MAX_TEXT"), ("sbSize", "SB_SIZE"),
         ("sbBufSize", "sizeof(((interactive_t*)0)->sb_buf)"),
